@@ -212,6 +212,24 @@ func DumpTemplates(c *Ctx, what string) {
 	fmt.Println("undefined templates:", ev.Undefined)
 	fmt.Println("unknown funcs:", ev.UnknownFuncs)
 	fmt.Println("unlisted files:", ev.F.Unlisted, "missing:", ev.F.Missing, "parse errors:", ev.F.ParseErrs, "dups:", ev.F.Duplicates)
+	if what == "quals" {
+		var rs []string
+		for r := range ev.Qualifiers {
+			rs = append(rs, r)
+		}
+		sort.Strings(rs)
+		for _, r := range rs {
+			imp := importedNames(ev.F.Trees[r])
+			var missing []string
+			for q, pos := range ev.Qualifiers[r] {
+				if !imp[q] {
+					missing = append(missing, q+"@"+pos)
+				}
+			}
+			sort.Strings(missing)
+			fmt.Printf("QUALS %-24s imports=%d used=%d missing=%v\n", r, len(imp), len(ev.Qualifiers[r]), missing)
+		}
+	}
 	for _, cc := range ev.CommentedCode {
 		fmt.Printf("COMMENTED-CODE %s [%s] marker %q entered in %s\n", cc.Tree.PosStr(cc.Pos), cc.Inst, cc.Marker, cc.Entry)
 	}
@@ -237,4 +255,57 @@ func typeStr(t types.Type) string {
 		return "?"
 	}
 	return types.TypeString(t, func(p *types.Package) string { return p.Name() })
+}
+
+
+// importedNames: names made available by the import block(s) written literally in the
+// template text: the alias when given, else the last path element.
+func importedNames(t *tmpl.Tree) map[string]bool {
+	out := map[string]bool{}
+	if t == nil {
+		return out
+	}
+	src := t.Src
+	for {
+		i := strings.Index(src, "import (")
+		if i < 0 {
+			break
+		}
+		rest := src[i+len("import ("):]
+		j := strings.Index(rest, "\n)")
+		if j < 0 {
+			break
+		}
+		for _, line := range strings.Split(rest[:j], "\n") {
+			line = strings.TrimSpace(line)
+			// strip template actions
+			for strings.Contains(line, "{{") && strings.Contains(line, "}}") {
+				a, b := strings.Index(line, "{{"), strings.Index(line, "}}")
+				if b < a {
+					break
+				}
+				line = strings.TrimSpace(line[:a] + " " + line[b+2:])
+			}
+			q1 := strings.IndexByte(line, '"')
+			if q1 < 0 {
+				continue
+			}
+			q2 := strings.IndexByte(line[q1+1:], '"')
+			if q2 < 0 {
+				continue
+			}
+			path := line[q1+1 : q1+1+q2]
+			alias := strings.TrimSpace(line[:q1])
+			name := path
+			if k := strings.LastIndexByte(path, '/'); k >= 0 {
+				name = path[k+1:]
+			}
+			if alias != "" && alias != "_" {
+				name = alias
+			}
+			out[name] = true
+		}
+		src = rest[j:]
+	}
+	return out
 }
